@@ -54,7 +54,13 @@ func (s *store) flush() {
 	s.metadata.Scan(func(key string, m *metadata) bool {
 		m.Lock()
 		defer m.Unlock()
-		if !m.modified() || m.expired(now) || !m.isOk() {
+		if m.expired(now) || !m.isOk() {
+			// a dead key must not survive in storage either (it would come back, with its old
+			// value and deadline, when the storage is opened again)
+			m.unpersist(s.ss)
+			return true
+		}
+		if !m.modified() {
 			return true
 		}
 		if m.value == nil {
